@@ -1,7 +1,7 @@
 // C07 — transaction and block atomicity.
 //
 // O1 (proposer path): on every state reachable by a small recipe BFS, EVERY block of <= 3
-// transactions drawn from {4 succeeding, 6 failing} templates is run through the proposer
+// transactions drawn from {4 succeeding, 7 failing} templates is run through the proposer
 // path (ApplyBlock(allowOversize=true) on a Copy of the FSM, what Mempool.CheckMempool does).
 // The full raw state, header (state root, tx root, counters), tx results, events and the
 // indexer content written by transactions must equal those of the SAME block with the
@@ -269,6 +269,19 @@ var templates = []tmpl{
 			}
 			return c07lib.MkTxOn(env.BLS(4), &fsm.MessageSend{FromAddress: env.Addr(env.BLS(4)).Bytes(), ToAddress: env.Addr(env.BLS(5)).Bytes(), Amount: 4000 + uint64(occ)},
 				c07lib.Fee, w.h, tstamp(w.h, 8, occ), "", 7)
+		}},
+	// a parameter change that passes every stateless check but is refused by the parameter sanity check
+	// AFTER the in-memory parameter object was modified; the double-sign slash of a later cert2 in the
+	// same block reads that parameter (101 % would delete the validator)
+	{name: "F:param-slash-pct-101", fail: "exec", where: "UpdateParam: SetUint64 on the cached ValidatorParams, then ValidatorParams.Check refuses (after the fee)",
+		build: func(w *world, occ, pos int) []byte {
+			a, err := lib.NewAny(&lib.UInt64Wrapper{Value: 101 + uint64(occ)})
+			if err != nil {
+				panic(err)
+			}
+			k := env.BLS(4)
+			return c07lib.MkTx(k, &fsm.MessageChangeParameter{ParameterSpace: fsm.ParamSpaceVal, ParameterKey: fsm.ParamDoubleSignSlashPercentage, ParameterValue: a,
+				StartHeight: 1, EndHeight: 10000, Signer: env.Addr(k).Bytes()}, c07lib.Fee, w.h, tstamp(w.h, 10, occ), "")
 		}},
 	{name: "F:editstake-overdraw", fail: "exec", where: "HandleMessageEditStake AccountSub, after fee and GetValidator",
 		build: func(w *world, occ, pos int) []byte {
